@@ -7,6 +7,7 @@ package core
 import (
 	"encoding/json"
 	"fmt"
+	"io"
 	"os"
 	"path"
 	"path/filepath"
@@ -667,7 +668,18 @@ func (self *Metadata) read(name MetadataFileName, limit int64) (LazyArgumentMap,
 				}
 			}
 			dec := json.NewDecoder(f)
-			return dec.Decode(v)
+			if err := dec.Decode(v); err != nil {
+				return err
+			}
+			// The file is one json value.  Anything after it means that
+			// the file as a whole is not valid json.
+			if _, err := dec.Token(); err != io.EOF {
+				if err == nil {
+					err = fmt.Errorf("unexpected data after the json value in %s", p)
+				}
+				return err
+			}
+			return nil
 		}(p, f, limit, &v); err == nil {
 			self.saveToCache(name, v)
 			return v, nil
